@@ -128,6 +128,23 @@ def cases(tier, rng):
             c = "(show-rule %s)" % r
             plain.append((c, "show-rule-canonical")); EXPECT[c] = ("(ok %s)" % S(txt), "R1")
             items.append(("parse-rule", txt, "parse-rule-canonical", "(ok %s)" % r))
+    # the listings format_kb (keys sorted, rules in insertion order, each through Display) and format_ss, with their expected text
+    kb_rules = []
+    for (h, htxt) in HEADS:
+        for t in rule_trees[:40]:
+            kb_rules.append((rule(h), htxt + ".") if t is None else (rule(h, ast(t)), htxt + " :- " + canon(t) + "."))
+    for _ in range(40 if quick else 600):
+        pick = [rng.choice(kb_rules) for _ in range(rng.randint(0, 7))]
+        c = "(format-kb (kb %s))" % " ".join(r for r, _ in pick)
+        by_key = {}
+        for r, txt in pick:
+            hd = parse(r)[1]
+            by_key.setdefault("%s/%d" % (unS(hd[1][1]), len(hd) - 2), []).append(txt)
+        exp = "_____ Contents of Knowledge Base _____\n" + "".join(k + "\n" + "".join("\t" + t + "\n" for t in by_key[k]) for k in sorted(by_key)) + "______________________________________"
+        plain.append((c, "format-kb")); EXPECT[c] = ("(ok %s)" % S(exp), "R1")
+    for ent in ([], [None], [None, atom("a"), None, var(0, "$X"), lst([integer(1), integer(2)], var(3, "$T")), cplx("f", flt(2.5))], [atom("x")] * 12):
+        c = "(format-ss %s)" % ss(ent)
+        plain.append((c, "format-ss"))
     # the defects found in round 1, by name (also in corpus/C19goals/)
     U1, U2, U3 = (bip("unify", X0, integer(k)) for k in (1, 2, 3))
     named = [
